@@ -29,6 +29,9 @@ pub struct ThrCase {
     pub iterations: usize,
     /// when set, exactly this recorded schedule is executed instead of `iterations` seeded ones
     pub replay_schedule: Option<String>,
+    /// every `rank` of the batch is issued as `rank_prefetch` (scenarios on `*Pfs` trees with non-trivial samples)
+    #[serde(default)]
+    pub prefetch_heavy: bool,
 }
 
 pub fn gen_case(run_seed: u64, tier: Tier) -> ThrCase {
@@ -47,7 +50,42 @@ pub fn gen_case(run_seed: u64, tier: Tier) -> ThrCase {
         }
         spec = gen_spec(&mut rng, Tier::Thorough);
     }
+    // one scenario in ten: a tree with prefetch support whose samples are non-trivial (some 2-bit digit occurs more
+    // than 2048 times on a level, three or more levels), queried mostly through rank_prefetch
+    let prefetch_heavy = rng.chance(1, 10);
+    if prefetch_heavy {
+        use crate::ds::{Alias, Sym, ALL_TYS};
+        use crate::gen::{Arrange, Seq};
+        let alias = *rng.pick(&[Alias::QWT256Pfs, Alias::QWT512Pfs, Alias::HQWT256Pfs, Alias::HQWT512Pfs]);
+        let ty = *rng.pick(&ALL_TYS);
+        let k = rng.urange(2, 5);
+        let top = *rng.pick(&[63u128, 255, 255, 200, 1023]);
+        let top = top.min(crate::ds::Ty::max(ty));
+        let mut syms: Vec<Sym> = vec![];
+        while syms.len() < k {
+            let c = Sym(rng.next_u128() % top);
+            if !syms.contains(&c) {
+                syms.push(c);
+            }
+        }
+        let mut counts: Vec<u64> = (0..k).map(|_| rng.range(1500, 7000)).collect();
+        syms.push(Sym(top));
+        counts.push(rng.range(1, 3));
+        spec = Spec::Tree {
+            alias,
+            ty,
+            path: *rng.pick(&crate::ds::ALL_PATHS),
+            seq: Seq::Weights {
+                syms,
+                counts,
+                arrange: *rng.pick(&[Arrange::SortedRuns, Arrange::SortedRuns, Arrange::RandomRuns, Arrange::Shuffled]),
+                seed: rng.next_u64(),
+            },
+            orders: (rng.next_u64(), rng.next_u64()),
+        };
+    }
     ThrCase {
+        prefetch_heavy,
         spec,
         qseed: stream(run_seed, "queries").next_u64(),
         n_queries: rng.urange(30, 90),
@@ -135,7 +173,15 @@ pub fn exec(case: &ThrCase) -> RunOut {
     let before = catch(|| ser_vec(x.as_ref(), 0));
     let pristine = catch(|| x.clone_box()).ok();
     let mut qrng = Rng::new(case.qseed);
-    let qs_all = gen_queries(&case.spec, &mut qrng, case.n_queries);
+    let mut qs_all = gen_queries(&case.spec, &mut qrng, case.n_queries);
+    if case.prefetch_heavy {
+        out.count("prefetch_heavy_scenarios", 1);
+        for q in qs_all.iter_mut() {
+            if let Q::Rank(c, i) = q {
+                *q = Q::RankPf(*c, *i);
+            }
+        }
+    }
     // ---- 2. sequential purity
     let first: Vec<A> = qs_all.iter().map(|q| catch(|| x.answer(q)).unwrap_or_else(A::Panic)).collect();
     let mut order: Vec<usize> = (0..qs_all.len()).collect();
